@@ -4,6 +4,7 @@ literal lists/constants the models depend on."""
 import ast
 from .common import *
 from .pyexpr import Sym, QBackend, FloatBackend
+from .strsym import translate_deltamax
 
 SRC = 'localcider/backend/sequence.py'
 OUTPUTS = ['GSeq']
@@ -18,8 +19,8 @@ def _defn(name, params, ty, body):
 
 def generate(repo):
     tree = parse_file(repo + '/' + SRC)
-    out = Out('GSeq', SRC, ['From Coq Require Import List ZArith QArith Qabs String Bool.',
-                            'From LC Require Import Core.Residue.',
+    out = Out('GSeq', SRC, ['From Coq Require Import List ZArith QArith Qabs String Bool Arith.',
+                            'From LC Require Import Core.Residue Core.Lists.',
                             'Import ListNotations.', 'Local Open Scope string_scope.'])
     S = lambda name: find_func(tree, name, 'Sequence')
     qb = QBackend()
@@ -90,6 +91,9 @@ def generate(repo):
 
     out.add('g_kappa', lambda: _defn('g_kappa', '(dl dm : Q)', 'Q', Sym(
         qb, {'self.deltaMax()': 'dm', 'self.delta()': 'dl'}).function(S('kappa'))))
+
+    # ---- the delta-max candidate search
+    out.add('g_cands', lambda: 'Definition g_cands (p n z : nat) : list (list Z) :=\n (%s)%%nat.' % translate_deltamax(S('deltaMax')))
 
     # ---- charge pattern construction in __init__
     def init_pattern():
